@@ -590,8 +590,10 @@ func (s *procScan) add(f *procFn, n ast.Node, kind, what string) {
 }
 
 // lhsTarget walks down the left-hand side of a mutation and says what it mutates: "" = nothing the
-// scan cares about (a local value).  root = the identifier at the bottom of the chain (or nil).
-func (s *procScan) lhsTarget(f *procFn, e ast.Expr) (what string, root *ast.Ident) {
+// scan cares about.  root = the identifier at the bottom of the chain (or nil); indirect = the chain
+// crossed a pointer dereference (explicit, or implicit in a field selection) or indexed a slice / map:
+// the write lands in memory shared with every other holder of that pointer / slice / map.
+func (s *procScan) lhsTarget(f *procFn, e ast.Expr) (what string, root *ast.Ident, indirect bool) {
 	info := f.p.TypesInfo
 	for {
 		switch x := ast.Unparen(e).(type) {
@@ -600,21 +602,29 @@ func (s *procScan) lhsTarget(f *procFn, e ast.Expr) (what string, root *ast.Iden
 				if s.isSM(sel.Recv()) && what == "" {
 					what = "field " + maprangeTypeName(maprangeDeref(sel.Recv())) + "." + x.Sel.Name
 				}
+				if sel.Indirect() {
+					indirect = true
+				}
 				e = x.X
 				continue
 			}
 			// qualified identifier pkg.Var
-			if v, ok := info.Uses[x.Sel].(*types.Var); ok && v.Parent() == v.Pkg().Scope() {
+			if v, ok := info.Uses[x.Sel].(*types.Var); ok && v.Pkg() != nil && v.Parent() == v.Pkg().Scope() {
 				if what == "" {
 					what = "package variable " + strings.TrimPrefix(v.Pkg().Path(), hooksModule+"/") + "." + v.Name()
 				}
-				return what, x.Sel
+				return what, x.Sel, true
 			}
-			return what, nil
+			return what, nil, true
 		case *ast.IndexExpr:
-			if tv, ok := info.Types[x.X]; ok && s.isSM(tv.Type) && what == "" {
-				if _, isPtr := tv.Type.Underlying().(*types.Pointer); !isPtr {
-					what = "element of " + maprangeTypeName(tv.Type)
+			if tv, ok := info.Types[x.X]; ok {
+				if s.isSM(tv.Type) && what == "" {
+					if _, isPtr := tv.Type.Underlying().(*types.Pointer); !isPtr {
+						what = "element of " + maprangeTypeName(tv.Type)
+					}
+				}
+				if _, isArr := tv.Type.Underlying().(*types.Array); !isArr {
+					indirect = true
 				}
 			}
 			e = x.X
@@ -622,23 +632,48 @@ func (s *procScan) lhsTarget(f *procFn, e ast.Expr) (what string, root *ast.Iden
 			if tv, ok := info.Types[x.X]; ok && s.isSM(tv.Type) && what == "" {
 				what = "pointee " + maprangeTypeName(maprangeDeref(tv.Type))
 			}
+			indirect = true
 			e = x.X
 		case *ast.SliceExpr:
+			indirect = true
 			e = x.X
 		case *ast.TypeAssertExpr:
+			indirect = true
 			e = x.X
 		case *ast.Ident:
 			if v, ok := info.Uses[x].(*types.Var); ok && v.Pkg() != nil && v.Parent() == v.Pkg().Scope() {
 				if what == "" {
 					what = "package variable " + strings.TrimPrefix(v.Pkg().Path(), hooksModule+"/") + "." + v.Name()
 				}
+				return what, x, true
 			}
-			return what, x
+			return what, x, indirect
 		default:
 			// a call result, a literal ...: if something SM was crossed on the way it is still a mutation
-			return what, nil
+			return what, nil, true
 		}
 	}
+}
+
+// localCopy: the write stays inside a variable of this function (a local, a by-value parameter or
+// receiver) - no pointer, slice or map was crossed on the way down to it
+func (s *procScan) localCopy(f *procFn, root *ast.Ident, indirect bool) bool {
+	if root == nil || indirect {
+		return false
+	}
+	o := f.p.TypesInfo.Uses[root]
+	if o == nil {
+		o = f.p.TypesInfo.Defs[root]
+	}
+	v, ok := o.(*types.Var)
+	if !ok || v.Pkg() == nil || v.Parent() == v.Pkg().Scope() {
+		return false
+	}
+	switch v.Type().Underlying().(type) {
+	case *types.Pointer, *types.Map, *types.Slice, *types.Chan, *types.Interface, *types.Signature:
+		return false
+	}
+	return true
 }
 
 func (s *procScan) exemptRoot(f *procFn, root *ast.Ident) bool {
@@ -661,11 +696,11 @@ func (s *procScan) exemptRoot(f *procFn, root *ast.Ident) bool {
 }
 
 func (s *procScan) mutation(f *procFn, n ast.Node, verb string, lhs ast.Expr) {
-	what, root := s.lhsTarget(f, lhs)
+	what, root, indirect := s.lhsTarget(f, lhs)
 	if what == "" {
 		return
 	}
-	if s.exemptRoot(f, root) {
+	if s.exemptRoot(f, root) || s.localCopy(f, root, indirect) {
 		return
 	}
 	s.add(f, n, "procstate", verb+" "+what)
@@ -720,7 +755,7 @@ func (s *procScan) scanFunc(f *procFn) {
 		case *ast.UnaryExpr:
 			if x.Op == token.AND {
 				// &pkgVar / &k.field of carrying kind: an alias
-				if what, root := s.lhsTarget(f, x.X); what != "" && !s.exemptRoot(f, root) {
+				if what, root, _ := s.lhsTarget(f, x.X); what != "" && !s.exemptRoot(f, root) {
 					if tv, ok := info.Types[x.X]; ok && (maprangeCarrying(tv.Type) || strings.HasPrefix(what, "package variable")) {
 						if len(parents) > 0 {
 							if call, ok := parents[len(parents)-1].(*ast.CallExpr); ok {
@@ -766,8 +801,13 @@ func (s *procScan) scanFunc(f *procFn) {
 			name := fn.Name()
 			switch {
 			case maprangeIsSyncType(recvT):
-				what, root := s.lhsTarget(f, sel.X)
-				if what == "" || s.exemptRoot(f, root) {
+				what, root, indirect := s.lhsTarget(f, sel.X)
+				if tv, ok := info.Types[sel.X]; ok {
+					if _, isPtr := tv.Type.Underlying().(*types.Pointer); isPtr {
+						indirect = true // the method works on the pointee
+					}
+				}
+				if what == "" || s.exemptRoot(f, root) || s.localCopy(f, root, indirect) {
 					return
 				}
 				if maprangeSyncRead[name] {
@@ -780,7 +820,7 @@ func (s *procScan) scanFunc(f *procFn) {
 				}
 			case maprangeIsSdkNum(recvT):
 				if strings.HasSuffix(name, "Mut") || strings.HasPrefix(name, "Set") || strings.HasPrefix(name, "Unmarshal") {
-					what, root := s.lhsTarget(f, sel.X)
+					what, root, _ := s.lhsTarget(f, sel.X)
 					if s.exemptRoot(f, root) {
 						return
 					}
@@ -794,7 +834,7 @@ func (s *procScan) scanFunc(f *procFn) {
 				}
 			case maprangeIsBigType(recvT):
 				if _, isPtr := recvT.(*types.Pointer); isPtr && !maprangeBigRead[name] {
-					if what, root := s.lhsTarget(f, sel.X); what != "" && !s.exemptRoot(f, root) {
+					if what, root, _ := s.lhsTarget(f, sel.X); what != "" && !s.exemptRoot(f, root) {
 						s.add(f, x, "procstate", "in-place "+maprangeTypeName(maprangeDeref(recvT))+"."+name+" on "+what)
 					}
 				}
@@ -921,7 +961,7 @@ func (s *procScan) aliasUse(f *procFn, e ast.Expr, parents []ast.Node) {
 				// recognised only as `x.f = append(x.f, ...)`, which is a mutation row
 				if i > 0 {
 					if as, ok := parents[i-1].(*ast.AssignStmt); ok && len(as.Lhs) == 1 && len(p.Args) > 0 && ast.Unparen(p.Args[0]) == e {
-						if w, _ := s.lhsTarget(f, as.Lhs[0]); w != "" {
+						if w, _, _ := s.lhsTarget(f, as.Lhs[0]); w != "" {
 							return
 						}
 					}
@@ -1390,6 +1430,11 @@ func (z *zoneScan) scanFunc(p *packages.Package, fd *ast.FuncDecl, rel string) {
 		case *ast.CallExpr:
 			if ast.Unparen(par.Fun) == ast.Unparen(e) {
 				return
+			}
+			if sel, ok := ast.Unparen(par.Fun).(*ast.SelectorExpr); ok {
+				if ms, ok := info.Selections[sel]; ok && ms.Kind() == types.MethodVal && maprangeIsTimeTime(ms.Recv()) && maprangeZoneFree[sel.Sel.Name] {
+					return // t.Before(u), t.Sub(u) ...: compares instants
+				}
 			}
 			add(e, src+" value passed to a call before a UTC conversion")
 		case *ast.KeyValueExpr, *ast.CompositeLit:
